@@ -74,14 +74,49 @@ def run(ck, P):
                                                   "possibly left behind by a user callback of a previous event of the batch: the event is dropped and the loop quits with that value"),
               witness=[("del_event", rv.unit, rv.name, z.block.id, z.idx) for z in zeros])
 
+    # the read after poll_wait() is taken whatever poll_wait returned: a *successful* wait must therefore leave errno at the 0 it was
+    # reset to, i.e. the callee makes at most one errno-setting external call per path and never retries one in a loop
+    pw = P.fn("poll_wait")
+    ck.analysed(pw)
+    ext = [e for e in pw.calls() if e.callee and not P.by_name.get(e.callee) and e.callee not in rules.PURE_EXT]
+    inloop = [e for e in ext if e.block.id in pw.in_loop_blocks()]
+    multi = None
+    for path in pw.paths():
+        evs = [e for e in rules.path_events(pw, path) if e in ext]
+        if len(evs) > 1:
+            multi = path
+    ck.ob("C03.1-ERRNO", pw.site("one errno source per wait"), bool(ext) and not inloop and multi is None,
+          "poll_wait makes exactly one errno-setting call (%s) per path: success leaves the errno recv_events reset" % sorted({e.callee for e in ext})
+          if ext and not inloop and multi is None else
+          "poll_wait can make several errno-setting calls (%s%s): after a failed-then-retried wait a successful return still carries the stale errno "
+          "(EINTR), which recv_events reads unconditionally — the whole batch is skipped and its one-shot sources are lost"
+          % (sorted({e.callee for e in ext}), " in a loop" if inloop else ""))
+
     # ------------------------------------------------------------------ 2. reasons to return
     ck.rule("C03.2-REASONS", "R-WHO-WRITES: c->quit/quit_code are written only by loop_start (reset) and loop_quit; loop_quit is called only by "
             "m_ctx_quit and by the error arm of recv_events (err set and neither EINTR nor EAGAIN); the blocking loop continues exactly while "
             "!quit && running_modules > 0; loop_stop returns the quit code it read before the automatic context release", floor=6)
+    has_lq = bool(P.by_name.get("loop_quit"))
     for fld in ("quit", "quit_code"):
         ws = list(P.writes_to_field("_ctx", fld))
-        ok = bool(ws) and {w.fn.name for w in ws} <= {"loop_start", "loop_quit"} and all(cval(w.rhs) == 0 for w in ws if w.fn.name == "loop_start")
+        allowed = {"loop_start", "loop_quit"} if has_lq else {"loop_start", "m_ctx_quit", "recv_events"}   # loop_quit folded into its two callers
+        ok = bool(ws) and {w.fn.name for w in ws} <= allowed and all(cval(w.rhs) == 0 for w in ws if w.fn.name == "loop_start")
         ck.ob("C03.2-REASONS", "%s:_ctx.%s writers" % (CTXC, fld), ok, "written by %s" % sorted({(w.fn.name, S(w.rhs)) for w in ws}))
+    if not has_lq:
+        # the request to quit written out in place: same two sites, same conditions
+        for w in P.writes_to_field("_ctx", "quit"):
+            f = w.fn
+            if f.name == "loop_start":
+                continue
+            ck.call_sites += 1
+            codes = [x for x in P.writes_to_field("_ctx", "quit_code") if x.fn is f and x.block.id == w.block.id]
+            if f.name == "recv_events":
+                facts = X.facts(f, w)
+                ok = has(facts, "err") and has(facts, "(err == 4)", False) and has(facts, "(err == 11)", False) and bool(codes) and all(S(x.rhs) == "err" for x in codes)
+                ck.ob("C03.2-REASONS", f.site("loop_quit(err)"), ok, "error arm under %s" % fmt_facts(frozenset(x for x in facts if "err" in x[0])))
+            else:
+                ck.ob("C03.2-REASONS", f.site("loop_quit"), f.name == "m_ctx_quit" and bool(codes) and all(S(x.rhs) == f.params[0]["name"] for x in codes),
+                      "%s stores quit with code %s" % (f.name, [S(x.rhs) for x in codes]))
     lq = list(P.calls_to("loop_quit"))
     for ev in lq:
         f = ev.fn
@@ -160,13 +195,16 @@ def run(ck, P):
     ps = P.fn("poll_set_new_evt")
     ck.analysed(ps)
     # per path: the event mask finally stored has EPOLLONESHOT exactly when the path took the M_SRC_ONESHOT branch
+    # every spelling of "the events field of this source's epoll record" (ev->events, tmp->ev->events after a helper was inlined)
+    masks = frozenset(S(e.lhs) for e in ps.events() if e.kind == "assign" and strip(e.lhs)["k"] == "member" and strip(e.lhs)["field"] == "events"
+                      and strip(e.lhs).get("rec", "") in ("epoll_event", ""))
     badm = None
     nm = 0
     for path in ps.paths():
         feas, _env, a, _evs = rules.simulate(ps, path)
         if not feas:
             continue
-        stored, v = rules.path_final_const(ps, path, "ev->events")
+        stored, v = rules.path_final_const(ps, path, masks)
         if not stored:
             continue
         nm += 1
@@ -194,6 +232,22 @@ def run(ck, P):
         fo = [e for e in cs.events() if e.kind == "assign" and S(e.lhs) == "src->flags" and e.e["op"] == "|=" and cval(e.rhs) == ONE
               and has(X.facts(cs, e), "(type == %d)" % E[tn])]
         ck.ob("C03.4-ONESHOT", cs.site("forced for " + tn[11:]), bool(fo), "%s sources are forced one-shot: %s" % (tn[11:], bool(fo)))
+
+    # ------------------------------------------------------------------ 4b. watched signals stay blocked
+    ck.rule("C03.6-SIGMASK", "R-WHO-CALLS: the process signal mask / dispositions are touched only by create_signalfd, and only to block the "
+            "watched signal (SIG_BLOCK): a signal source keeps its signal pending for the descriptor across pause/resume and between two "
+            "modules watching the same number", floor=1)
+    SIGCALLS = {"sigprocmask", "pthread_sigmask", "sigaction", "signal", "sigsuspend", "sigwait", "sigtimedwait"}
+    scs = list(P.calls_to(SIGCALLS))
+    ck.need(scs, "no signal-mask call left (create_signalfd no longer blocks the watched signal?)")
+    for ev in scs:
+        ck.call_sites += 1
+        ck.analysed(ev.fn)
+        okm = ev.fn.name == "create_signalfd" and ev.callee in ("sigprocmask", "pthread_sigmask") and cval(ev.args[0]) == 0
+        ck.ob("C03.6-SIGMASK", ev.fn.site("%s(%s)" % (ev.callee, S(ev.args[0]))), okm,
+              "%s(%s, …) at line %d in %s%s" % (ev.callee, S(ev.args[0]), ev.line, ev.fn.name, "" if okm else
+                                                ": the signal mask is changed outside create_signalfd/SIG_BLOCK — a watched signal that arrives while its "
+                                                "module is paused (sources off the poll set) is delivered to the process instead of staying pending"))
 
     # ------------------------------------------------------------------ 5. dispatch = loop
     ck.rule("C03.5-DISPATCH", "R-SIBLING: m_ctx_dispatch and the blocking loop reach the same primitives {loop_start, recv_events, loop_stop} "
